@@ -14,7 +14,7 @@ CONSTANTS
   TxGas = 21000
   Rent = 24914
   MinConv = 2000000
-  TxValues <- RV0
+  TxValues <- RV03
   CallValues <- RV01
   Regimes <- RG
   Prefills <- PF0
